@@ -30,7 +30,7 @@ ASSUMPTIONS = ['read-only numpy flags are honoured for object arrays (checked at
 REQUIRED_CLASSES = ['accepted-layouts-compared', 'rejected-layout-tested', 'mismatch-tested', 'options-compared']
 EXPECTED_LABELS = ['layouts-give-identical-results', 'bad-layout-rejected', 'mismatched-lengths-rejected', 'inputs-not-modified',
                    'options-not-modified', 'repeat-call-identical']
-BUDGET_S = {'quick': 170, 'thorough': 1200}
+BUDGET_S = {'quick': 170, 'thorough': 900}
 OPTS = {'quick': {'sample_every': 29, 'concolic': False}, 'thorough': {'sample_every': 61, 'concolic': False}}
 TWO_PI = 2 * math.pi
 IMF = {'stop_method': 'fixed', 'max_iters': 1}
